@@ -132,7 +132,7 @@ func applyWith(w *world.World, k fkeeper.Keeper, ctx sdk.Context, op Op) (sdk.Co
 		cctx, write := ctx.CacheContext()
 		res := Result{Stage: "api"}
 		if op.Kind == "add_allowed" {
-			res.Err = k.AddAllowedBidders(cctx, op.AID, []ftypes.AllowedBidder{{AuctionId: op.AID, Bidder: addrOf(op.Bidder), MaxBidAmount: mustInt(op.Max)}})
+			res.Err = k.AddAllowedBidders(cctx, op.AID, []ftypes.AllowedBidder{{AuctionId: op.AID, Bidder: msgAddr(op.Bidder), MaxBidAmount: mustInt(op.Max)}})
 		} else {
 			res.Err = k.UpdateAllowedBidder(cctx, op.AID, world.A(op.Bidder).Addr, mustInt(op.Max))
 		}
